@@ -170,7 +170,31 @@ def check_misc(case):
             except Exception:
                 pass
     if kind == "mosstack":
-        for n in (1, 2, 4):
+        # MosStack IS Series over drain and source, for whatever unit has those two ports
+        def mk_units():
+            E2 = h.ExternalModule(name="Sw2", port_list=[h.Inout(name="d"), h.Inout(name="s")], desc="", domain="u")
+            E3 = h.ExternalModule(name="Fet3", port_list=[h.Inout(name="d"), h.Inout(name="g"), h.Inout(name="s")], desc="", domain="u")
+            E5 = h.ExternalModule(name="Fet5", port_list=[h.Inout(name=n_) for n_ in ("d", "g", "s", "b", "sub")], desc="", domain="u")
+            PG = h.Module(name="PassGate")
+            PG.d, PG.s, PG.en, PG.enb = h.Ports(4)
+            PG.n = h.Nmos()(d=PG.d, g=PG.en, s=PG.s, b=PG.s)
+            PG.p = h.Pmos()(d=PG.d, g=PG.enb, s=PG.s, b=PG.d)
+            return [("Nmos", h.Nmos()), ("Pmos", h.Pmos(w=2 * h.prefix.µ)), ("Sw2", E2()), ("Fet3", E3()), ("Fet5", E5()), ("PassGate", PG)]
+        for uname, unit in mk_units():
+            for n in (1, 2, 4):
+                try:
+                    a = MosStack(unit=unit, nser=n)
+                except Exception as e:
+                    return ("mosstack", f"MosStack over {uname} (ports {list(unit.ports)}), nser={n}: {type(e).__name__}: {str(e)[:100]} "
+                                        f"- Series over d and s builds it", w)
+                b = Series(unit=unit, conns=("d", "s"), nser=n)
+                if a is not b:
+                    pa, pb = h.to_proto(a), h.to_proto(b)
+                    if [i.SerializeToString(deterministic=True) for i in pa.modules[-1].instances] != \
+                            [i.SerializeToString(deterministic=True) for i in pb.modules[-1].instances] or \
+                            [p_.signal for p_ in pa.modules[-1].ports] != [p_.signal for p_ in pb.modules[-1].ports]:
+                        return ("mosstack", f"MosStack over {uname}, nser={n} differs from Series over drain and source", w)
+        for n in ():
             a = MosStack(unit=h.Nmos(), nser=n)
             b = Series(unit=h.Nmos(), conns=("d", "s"), nser=n)
             if a is not b:
